@@ -7,6 +7,7 @@ from ..core import S, Env, cj, h
 
 LEVEL = 'exploration'
 SAMPLE = 100          # iterable_loader's inference sample (read off the code)
+FILE_SAMPLE = 1000    # the tabulator sample load() asks for on file sources (read off the code)
 
 
 class Monitor:
@@ -55,6 +56,60 @@ def gen_source(mon, k, n):
     for i in range(n):
         mon.pull(k)
         yield make_row(k, i)
+
+
+def counting_parser(mon, n):
+    """A tabulator parser (plugged in through load's documented pass-through of format= / custom_parsers=) whose rows come
+    from the monitored generator: a file source whose reading pattern the harness can see."""
+    from tabulator.parser import Parser
+    names = [f[0] for f in FIELDS]
+
+    class CountingParser(Parser):
+        options = []
+
+        def __init__(self, loader, force_parse=False):
+            self._rows = None
+
+        @property
+        def closed(self):
+            return self._rows is None
+
+        def open(self, source, encoding=None):
+            self.reset()
+
+        def close(self):
+            self._rows = None
+
+        def reset(self):
+            self._rows = self._iter()
+
+        @property
+        def encoding(self):
+            return 'utf-8'
+
+        @property
+        def extended_rows(self):
+            return self._rows
+
+        def _iter(self):
+            yield 1, None, list(names)
+            for i in range(n):
+                mon.pull(0)
+                r = make_row(0, i)
+                yield i + 2, None, ['' if r[c] is None else str(r[c]) for c in names]
+    return CountingParser
+
+
+FILE_OPTS = {
+    'file-default': {},
+    'file-full': {'infer_strategy': 'full'},
+    'file-strings': {'infer_strategy': 'strings'},
+    'file-pytypes': {'infer_strategy': 'pytypes', 'cast_strategy': 'nothing'},
+    'file-nocast': {'cast_strategy': 'nothing'},
+    'file-castcheck': {'cast_strategy': 'schema'},
+    'file-limit': {'limit_rows': 1200},
+    'file-override': {'override_fields': {'s': {'type': 'string'}}, 'extract_missing_values': True},
+}
 
 
 class LazySized:
@@ -149,7 +204,8 @@ SYMS = {
 }
 CONTROL = {'sort_rows': S('sort_rows', '{_i}')}      # buffering step: the monitor's positive control
 SIGMA = list(SYMS)
-SOURCES = ['gen1', 'gen2', 'tuple1', 'tuple-limit', 'genlist', 'gen1-take10', 'tuple1-take10', 'gen1-badrow', 'sized1', 'tuple-select',
+FILE_SOURCES = list(FILE_OPTS)
+SOURCES = ['gen1', 'gen-sparse', 'gen-ragged', 'gen2', 'tuple1', 'tuple-limit', 'genlist', 'gen1-take10', 'tuple1-take10', 'gen1-badrow', 'sized1', 'tuple-select',
            'tuple-noschema']
 
 
@@ -167,6 +223,19 @@ def run_one(srckind, path, n):
         if srckind in ('gen1', 'gen2'):
             for k in range(nsrc):
                 links.append(gen_source(mon, k, n))
+        elif srckind == 'gen-sparse':
+            # a wide, sparse stream: a key nobody has seen before keeps turning up (one column per period)
+            links.append((dict(r, **{'m_%03d' % (r['_i'] // 40): 1}) for r in gen_source(mon, 0, n)))
+        elif srckind == 'gen-ragged':
+            # optional keys: half of the rows lack 'u2', the first row lacks 'nn'
+            def ragged():
+                for r in gen_source(mon, 0, n):
+                    if r['_i'] % 2:
+                        del r['u2']
+                    if r['_i'] == 0:
+                        del r['nn']
+                    yield r
+            links.append(ragged())
         elif srckind == 'tuple-noschema':
             # a hand-written descriptor whose resource has no schema at all
             links.append(core.dataflows.load(({'name': 'p', 'resources': [{'name': 't', 'path': 't.csv'}]}, iter([gen_source(mon, 0, n)]))))
@@ -177,6 +246,11 @@ def run_one(srckind, path, n):
                                              resources='t'))
         elif srckind == 'sized1':
             links.append(LazySized(mon, 0, n))
+        elif srckind in FILE_OPTS:
+            fpath = d + '/numbers.cnt'
+            open(fpath, 'w').close()
+            links.append(core.dataflows.load(fpath, name='t', format='cnt', custom_parsers={'cnt': counting_parser(mon, n)},
+                                             **FILE_OPTS[srckind]))
         elif srckind == 'genlist':
             # an iterable of lists (columns col0, col1, ...): renamed so that the steps of the alphabet still apply
             names = [f[0] for f in FIELDS]
@@ -194,7 +268,7 @@ def run_one(srckind, path, n):
 
             def terminal(rows):
                 for r in rows:
-                    mon.deliver(r['_src'], r['_i'])
+                    mon.deliver(int(r['_src']), int(r['_i']))
                     yield r
                     if take10 and mon.delivered >= 10:
                         return              # the consumer stops reading this resource here
@@ -239,7 +313,7 @@ def check_seq(srckind, path, ns):
     label = 'Flow(%s, %s)' % (srckind, ', '.join(path))
     Ls = [tuple(r[1]) for r in res]
     pres = [tuple(r[2]) for r in res]
-    bound = SAMPLE
+    bound = FILE_SAMPLE if srckind in FILE_OPTS else SAMPLE
     if any(max(l) > bound for l in Ls) or any(max(p) > bound for p in pres):
         viol.append(('lookahead-bound', '%s: rows read ahead of the row being delivered: %r for sizes %r (bound %d)'
                      % (label, Ls, ns, bound)))
@@ -298,6 +372,10 @@ def run(run):
     depth = 2 if run.tier == 'quick' else 3
     ns = sizes(run.tier)
     tasks = [{'src': k, 'prefix': [], 'depth': 0, 'sizes': ns} for k in SOURCES]
+    # file sources: sizes beyond the tabulator sample, so that a look-ahead that follows the length shows
+    fns = [1500, 3000] if run.tier == 'quick' else [1500, 3000, 12000]
+    tasks += [{'src': k, 'prefix': [], 'depth': 1 if k in ('file-default', 'file-full') or run.tier == 'thorough' else 0, 'sizes': fns}
+              for k in FILE_SOURCES]
     for k in SOURCES:
         if depth == 2:
             d_k = 2 if k in ('gen1', 'tuple1') else 1      # quick: pairs on the two basic sources, singles on the others
